@@ -4,8 +4,8 @@
 //
 // For every case it creates the key set / version history / pending uploads /
 // parts in a fresh bucket, then FOLLOWS the continuation markers of the listing
-// operation until IsTruncated is false, once at the storage API and once (twice
-// for ListObjects: v1 and v2) through the HTTP XML API, and logs every page:
+// operation until IsTruncated is false, once at the storage API and once (three times
+// for ListObjects: v1, v2 token, v2 start-after) through the HTTP XML API, and logs every page:
 // the markers that were sent, the entries, the common prefixes, the truncated
 // flag and the next markers that came back.  The driver contains no expected
 // values: the verdict is computed by TLC (ListingTrace.tla) from this log.
@@ -122,7 +122,7 @@ type page struct {
 }
 
 type run struct {
-	Api    string `json:"api"` // store | v1 | v2 | http
+	Api    string `json:"api"` // store | v1 | v2 | v2s | http
 	Pages  []page `json:"pages"`
 	End    string `json:"end"` // done | loop | stuck | error
 	Detail string `json:"detail"`
@@ -237,8 +237,9 @@ func (e *env) execute(n int, k *kase) map[string]any {
 			must(err)
 		}
 		runs = append(runs, e.objectsStore(bucket, prefix, delim, k.Max))
-		runs = append(runs, e.objectsHTTP(bucket, prefix, delim, k.Max, false))
-		runs = append(runs, e.objectsHTTP(bucket, prefix, delim, k.Max, true))
+		runs = append(runs, e.objectsHTTP(bucket, prefix, delim, k.Max, "v1"))
+		runs = append(runs, e.objectsHTTP(bucket, prefix, delim, k.Max, "v2"))
+		runs = append(runs, e.objectsHTTP(bucket, prefix, delim, k.Max, "v2s"))
 	case "versions":
 		ids := map[string]int{"null": 0}
 		for _, s := range k.Prog {
@@ -270,7 +271,7 @@ func (e *env) execute(n int, k *kase) map[string]any {
 		runs = append(runs, e.versionsStore(bucket, prefix, delim, k.Max, ids))
 		runs = append(runs, e.versionsHTTP(bucket, prefix, delim, k.Max, ids))
 		// the same history also defines a visible key set: list it with ListObjects too
-		runs = append(runs, e.objectsHTTP(bucket, prefix, delim, k.Max, true))
+		runs = append(runs, e.objectsHTTP(bucket, prefix, delim, k.Max, "v2"))
 	case "uploads":
 		ids := map[string]int{}
 		for _, key := range k.Ups {
@@ -466,11 +467,11 @@ func (e *env) get(path string, q url.Values, into any) error {
 	return xml.Unmarshal(rec.Body.Bytes(), into)
 }
 
-func (e *env) objectsHTTP(bucket storage.BucketName, prefix, delim string, max int, v2 bool) run {
-	api := "v1"
-	if v2 {
-		api = "v2"
-	}
+// objectsHTTP follows ListObjects through HTTP: api "v1" (marker / NextMarker),
+// "v2" (continuation-token / NextContinuationToken) or "v2s" (list-type=2, the
+// returned token is sent back as start-after instead of continuation-token).
+func (e *env) objectsHTTP(bucket storage.BucketName, prefix, delim string, max int, api string) run {
+	v2 := api != "v1"
 	return follow(api, func(m1 *string, _ int) (page, error) {
 		q := url.Values{}
 		if prefix != "" {
@@ -482,7 +483,9 @@ func (e *env) objectsHTTP(bucket storage.BucketName, prefix, delim string, max i
 		q.Set("max-keys", strconv.Itoa(max))
 		if v2 {
 			q.Set("list-type", "2")
-			if m1 != nil {
+			if m1 != nil && api == "v2s" {
+				q.Set("start-after", *m1)
+			} else if m1 != nil {
 				q.Set("continuation-token", *m1)
 			}
 		} else if m1 != nil {
